@@ -310,6 +310,7 @@ def fam_frag(rng, n, prefix):
         else:
             frag_builder(rng, c)
         L = rng.range(0, 14)
+        rejected_at = None
         dts = rng.choice([0, 0, 9000, 12345, 2**33])
         step = rng.choice([3000, 3000, 1, 1500, 90000])
         for _ in range(L):
@@ -318,8 +319,13 @@ def fam_frag(rng, n, prefix):
                 vstep = step if rng.chance(3, 4) else rng.choice([0, 1, 2999, 10**6])
                 d = dts
                 if rng.chance(1, 10) and dts > 0:
-                    d = dts - rng.choice([1, step])  # may be rejected
+                    d = dts - rng.choice([1, step, 2 * step])  # may be rejected
                     d = max(d, 0)
+                    rejected_at = d
+                elif rejected_at is not None and rng.chance(1, 2) and rejected_at + 1 < dts:
+                    # right after a rejected write: a dts between the rejected one and the last accepted one
+                    d = rng.range(rejected_at, dts - 1)
+                    rejected_at = None
                 pts = d + rng.choice([0, 0, 0, step, 2 * step])
                 if rng.chance(1, 12) and d >= step:
                     pts = d - step
@@ -532,4 +538,91 @@ def fam_adts_lengths(rng, n, prefix):
             t += 0.02
         c.o("fin", 0)
         out.append(c)
+    return out
+
+
+# ---------- exhaustive small scopes (thorough tier) ----------
+def fam_exh_annexb(rng, n, prefix):
+    """ALL byte strings up to a length bound over {00,01,02,03,FF} through both converters and the
+    iterator (n selects the bound: n >= 90000 -> length 7, else length 6)"""
+    import itertools
+    L = 7 if n >= 90000 else (6 if n >= 15000 else 5)
+    out = []
+    k = 0
+    for l in range(0, L + 1):
+        for t in itertools.product(ALPHA5, repeat=l):
+            d = bytes(t)
+            name = ("annexb_to_avcc", "nal_iter", "hevc_annexb_to_hvcc")[k % 3] if l < L else "annexb_to_avcc"
+            out.append(fn_case("%s%d" % (prefix, k), name, hx(d)))
+            k += 1
+    return out
+
+
+def fam_exh_frag(rng, n, prefix):
+    """ALL op sequences of length <= 5 (6 when n is large) over {write(sync, dts+), write(nonsync, dts=),
+    write(dts-), write(empty payload), flush, init}"""
+    import itertools
+    L = 6 if n >= 40000 else 5
+    alpha = ["w+", "w=", "w-", "w0", "f", "i"]
+    out = []
+    k = 0
+    for l in range(1, L + 1):
+        for seq in itertools.product(alpha, repeat=l):
+            c = Case("%s%d" % (prefix, k), "frag")
+            k += 1
+            c.raw("fc 280 1e0 15f90 7d0 6742001e 68ce ~ ~ ~")
+            dts = 9000
+            for s in seq:
+                if s == "w+":
+                    dts += 3000
+                    c.o("fw", "%x" % (dts + 3000), "%x" % dts, "aabbcc", 1)
+                elif s == "w=":
+                    c.o("fw", "%x" % dts, "%x" % dts, "dd", 0)
+                elif s == "w-":
+                    c.o("fw", "%x" % dts, "%x" % max(dts - 1500, 0), "ee", 0)
+                elif s == "w0":
+                    dts += 3000
+                    c.o("fw", "%x" % max(dts - 3000, 0), "%x" % dts, "-", 0)
+                elif s == "f":
+                    c.o("ff")
+                else:
+                    c.o("fi")
+            c.o("ff")
+            out.append(c)
+    return out
+
+
+def fam_exh_contract(rng, n, prefix):
+    """ALL histories of length <= 2 (3 when n is large) over the product alphabet of C04
+    (timestamp class x payload class x call kind), per codec, followed by finish"""
+    import itertools
+    out = []
+    k = 0
+    L = 3 if n >= 100000 else 2
+    for codec in VCODECS:
+        pay = payload_alpha(Rng(hash_str(codec)), codec)
+        aud = [("aempty", b""), ("adts", adts(Rng(1), payload_len=5)), ("opus", bytes([0x08, 1, 2])), ("agarb", b"\x01\x02\x03")]
+        tsl = [t for _, t in TS_ALPHA if _ in ("nan", "neg", "zero", "t1", "t1eps", "t2", "huge")]
+        calls = []
+        for ts in tsl:
+            for _, p in pay:
+                calls.append(["wv", "%x" % ts, hx(p), 1])
+            calls.append(["wv", "%x" % ts, hx(pay[2][1]), 0])
+            calls.append(["wvd", "%x" % ts, "%x" % f64bits(1.0), hx(pay[2][1]), 1])
+            for _, a in aud:
+                calls.append(["wa", "%x" % ts, hx(a)])
+        calls.append(["fin", 0])
+        for acodec in ("aac-lc", "opus"):
+            for l in range(1, L + 1):
+                for seq in itertools.product(range(len(calls)), repeat=l):
+                    if l == 3 and (k % 7):     # thin out the cubic layer deterministically
+                        k += 1
+                        continue
+                    c = Case("%s%d" % (prefix, k), "mux")
+                    k += 1
+                    c.b("video", codec, "280", "1e0").b("audio", acodec, "bb80", 2).b("fast", k % 2)
+                    for i in seq:
+                        c.o(*calls[i])
+                    c.o("fin", 0)
+                    out.append(c)
     return out
